@@ -30,6 +30,37 @@ SEQ_LEN = {  # sequence a tag list iterates over -> expression giving the size o
 }
 
 
+MUTABLE_CTORS = ('ones', 'zeros', 'empty', 'full', 'array', 'zeros_like', 'ones_like', 'empty_like', 'list', 'dict', 'set', 'copy', 'arange')
+
+
+def _is_mutable_ctor(e):
+    return isinstance(e, (ast.List, ast.Dict, ast.Set, ast.ListComp, ast.DictComp, ast.SetComp)) or \
+        (isinstance(e, ast.Call) and (dotted(e.func) or '').split('.')[-1] in MUTABLE_CTORS)
+
+
+def _shared_mutables(fn):
+    """constructs that hand ONE freshly built mutable object to several keys / positions: ``dict.fromkeys(keys, <array>)`` and
+    ``[<array>] * n`` (also through a local bound once to such an object)."""
+    out = []
+    local = {}
+    for n in walk_local(fn):
+        if isinstance(n, ast.Assign) and len(n.targets) == 1 and isinstance(n.targets[0], ast.Name) and _is_mutable_ctor(n.value):
+            local.setdefault(n.targets[0].id, []).append(n.value)
+
+    def mutable(e):
+        return _is_mutable_ctor(e) or (isinstance(e, ast.Name) and len(local.get(e.id, ())) == 1)
+    for n in walk_local(fn):
+        if isinstance(n, ast.Call) and (dotted(n.func) or '').endswith('fromkeys') and len(n.args) == 2 and mutable(n.args[1]):
+            if not (isinstance(n.args[0], (ast.List, ast.Tuple)) and len(n.args[0].elts) < 2):
+                out.append((n, 'dict.fromkeys with a mutable value'))
+        if isinstance(n, ast.BinOp) and isinstance(n.op, ast.Mult):
+            for seq, k in ((n.left, n.right), (n.right, n.left)):
+                if isinstance(seq, (ast.List, ast.Tuple)) and seq.elts and all(mutable(e) for e in seq.elts) \
+                        and not (isinstance(k, ast.Constant) and k.value in (0, 1)):
+                    out.append((n, 'sequence repetition of a mutable element'))
+    return out
+
+
 def run(model, rep, tier):
     rep.explanation = __doc__.strip()
     from ._common import caches_for
@@ -78,13 +109,16 @@ def run(model, rep, tier):
     for n in walk_local(t2p):
         if isinstance(n, ast.Assign) and unparse(n.targets[0]) == 'thermodict' and isinstance(n.value, ast.Dict):
             td = n
+    # one array object handed to several keys (dict.fromkeys(keys, array), [array] * n): data written for one species land in
+    # the other's array as well
+    shared = _shared_mutables(t2p)
+    for node, what in shared:
+        rep.ob('neutral-defaults', mod, node, 'tags2preene: %s' % unparse(node)[:70], False,
+               '%s: every key / position refers to the same array object, so the prefactors and energies written for one kind of '
+               'state overwrite those of another' % what, engine='alias', qual='VacancyMediated.tags2preene')
     if td is None:
-        # e.g. dict.fromkeys / dict(...) constructions
-        cand = [n for n in walk_local(t2p) if isinstance(n, ast.Assign) and unparse(n.targets[0]) == 'thermodict']
-        rep.ob('neutral-defaults', mod, cand[0] if cand else t2p, 'thermodict is a literal {key: fresh array}', False,
-               'thermodict is not built as a literal with one fresh array per key: keys may share one array object, so data '
-               'written for one species overwrite another', engine='alias')
-        raise AnalysisError('tags2preene: thermodict literal not found')
+        rep.undecided('tags2preene: thermodict is not built as a literal; its default arrays were not located')
+        return
     sizes = {}
     for n in walk_local(t2p):
         if isinstance(n, ast.Assign) and isinstance(n.targets[0], ast.Tuple) and isinstance(n.value, ast.Tuple):
@@ -116,6 +150,9 @@ def run(model, rep, tier):
         okp = pre.startswith('pre') and ene.startswith('ene') and pre[3:] == ene[3:]
         src = tdk if lp is row_loops[0] else limb_sizes
         okk = pre in src and ene in src
+        if not okk and lp is row_loops[0] and len(tdk) < 8:
+            rep.undecided("tags2preene: the arrays of row ('%s', '%s', '%s') are not entries of the thermodict literal" % (tagstring, pre, ene))
+            continue
         rep.ob('tag-type-tables', mod, node, "row ('%s', '%s', '%s')" % (tagstring, pre, ene), okp and okk,
                '' if okp and okk else 'row pairs prefactor and energy of different species, or names an array that does not exist '
                                       'at this point', engine='tables')
